@@ -18,7 +18,8 @@ warnings.simplefilter("ignore")
 def enc(v):
     v = np.asarray(v)[()]
     if isinstance(v, (np.floating, float)):
-        return enc_float(v)
+        q = enc_float(v)
+        return [0, 1] if q == [0, -1] else q          # the specification's arithmetic has one zero (see Judge!NumEq)
     return int(v)
 
 
@@ -142,7 +143,7 @@ def binding_demo():
     progs = drivers_heap.generate_and_run(7, 40, "C06")
     def effective(p):
         for i, st in enumerate(p["steps"]):
-            if st[0] == "assign" and p["rec"][i]["res"] == ["none"] and json.dumps(p["rec"][i]["obs"][:len(p["rec"][i - 1]["obs"])]) != json.dumps(p["rec"][i - 1]["obs"]):
+            if st[0] == "assign" and i < len(p["steps"]) - 1 and p["rec"][i]["res"] == ["none"] and json.dumps(p["rec"][i]["obs"][:len(p["rec"][i - 1]["obs"])]) != json.dumps(p["rec"][i - 1]["obs"]):
                 return i
         return None
     victim = next(p for p in progs if effective(p) is not None)
